@@ -18,6 +18,16 @@ ND_ENV = dict(real.DEFAULT_ENVDESC, nd=True)
 
 D24_WITNESS = ("$..*", [[[1], [5]], [[2]]])
 
+EXHAUSTIVE_FIXED = [
+    ({"r": [[{"k": 1}, {"k": 2}], [{"k": 3}]]}, "$..k"),
+    ([[[{"k": 1}, {"k": 2}], [{"k": 3}]]], "$..k"),
+    ({"r": {"x": [1], "y": [2]}}, "$..[0]"),
+    ({"r": [[[1]], [[2]]]}, "$..[0]"),
+    ([{"a": {"k": 1}, "b": {"k": 2}}], "$..k"),
+    ([[[[1]], [[2]]]], "$..[0]"),
+    ([[{"a": [1]}, {"a": [2]}]], "$..a"),
+]
+
 
 def node_count(v):
     if isinstance(v, list):
@@ -86,6 +96,7 @@ def explore_c17(rng, tier, res, deep=False):
     cap = 400 if tier != "thorough" else 4000
     lines, expect = [], []
     sets = []
+    fixed_idx = set()
     for i in range(n_inputs):
         q = rng.choice(queries)
         doc = rng.choice(small) if rng.random() < 0.7 else doc_with_all_kinds(rng, 2)
@@ -111,6 +122,21 @@ def explore_c17(rng, tier, res, deep=False):
         res.count("scripts", len(leaves))
         res.count("complete-walks" if complete else "capped-walks")
         res.sample({"query": q, "document": doc, "scripts": len(leaves), "distinct_outcomes": len({r for _c, r in leaves})})
+    # inputs beyond the small scope on which EVERY permitted ordering is produced (single-container chains above a
+    # branching: the visit-now-or-later choice is taken with an empty queue): walked completely on every run
+    for doc, q in EXHAUSTIVE_FIXED:
+        c = env.compile(q)
+        a = real.ast_query(c)
+        leaves, complete = choice_tree(env, c, doc, 20000)
+        ed = wire.enc_json(doc)
+        for ch, r in leaves[:: max(1, len(leaves) // 60)]:
+            lines.append(f"nd.find\t{eenv}\t{a}\t{ed}\t{ch.wire()}")
+            expect.append((r, q, doc, ch.wire()))
+        lines.append(f"rfc.outcomes\t{eenv}\t{a}\t{ed}")
+        expect.append(("__outcomes__", q, doc, None))
+        sets.append((q, doc, {r for _ch, r in leaves}, complete, len(expect) - 1))
+        fixed_idx.add(len(sets) - 1)
+        res.count("scripts", len(leaves))
     # the known-finding witness and larger inputs with sampled scripts
     big_cases = [D24_WITNESS] + [(rng.choice(queries), doc_with_all_kinds(rng, 3)) for _ in range(20 if tier != "thorough" else 300)]
     for q, doc in big_cases:
@@ -187,7 +213,7 @@ def explore_c17(rng, tier, res, deep=False):
             continue
         if o != r:
             res.mismatches.append({"op": "nd.find", "query": q, "document": doc, "script": script, "model": o[:300], "real": r[:300]})
-    for q, doc, realset, complete, idx in sets:
+    for si, (q, doc, realset, complete, idx) in enumerate(sets):
         spec = outcomes_at[idx]
         bad = [r for r in realset if r.startswith("ok\t") and r not in spec]
         for r in bad[:1]:
@@ -207,7 +233,7 @@ def explore_c17(rng, tier, res, deep=False):
                 elif missing:
                     res.violations.append({"property": "C17", "query": q, "document": doc, "observed": sorted(realset)[:6],
                                            "expected": sorted(spec)[:6], "what": f"exhaustiveness: {len(missing)} permitted orderings unreachable (known finding D24 recorded 3)"})
-            elif missing and node_count(doc) <= 6:
+            elif missing and (node_count(doc) <= 6 or si in fixed_idx):
                 res.violations.append({"property": "C17", "query": q, "document": doc, "observed": sorted(realset)[:6],
                                        "expected": sorted(missing)[:3],
                                        "what": f"exhaustiveness: {len(missing)} permitted ordering(s) are produced by no outcome of the random choices"})
